@@ -29,6 +29,7 @@ type Sent struct {
 // Delivery is one datagram handed to a node's reader.
 type Delivery struct {
 	Begin, End uint64 // global sequence numbers around HandleShipPayloadMessage
+	Pre, Post  uint64 // sequence numbers around the scenario's before/after observation hooks
 	Raw        []byte
 	D          *model.DatagramType // nil if not decodable
 	Dup        bool
@@ -43,6 +44,8 @@ type qitem struct {
 	tag string
 	dup bool
 	cor bool
+	rd  shipapi.ShipConnectionDataReaderInterface
+	gen int
 }
 
 // Conn is the inbound half of a connection as seen by a real node, plus the trace of what
@@ -120,6 +123,10 @@ func (c *Conn) startReader() {
 			simrt.WaitUntil("recv:"+c.Name, c.pending)
 			it := c.Queue[0]
 			c.Queue = c.Queue[1:]
+			// the payload is now in flight inside the read pump of this connection generation:
+			// it is handed to the reader that belongs to it even if the connection is removed
+			// (and re-established) before the stack gets to handle it
+			it.rd, it.gen = c.Reader, c.Gen
 			if w.FaultsOn && !it.dup {
 				if w.faultHit("net.drop") {
 					w.Fault("net.drop")
@@ -157,12 +164,13 @@ func (c *Conn) startReader() {
 //go:norace
 func (c *Conn) deliver(it qitem) {
 	w := c.W
-	d := &Delivery{Raw: it.raw, Tag: it.tag, Dup: it.dup, Corrupted: it.cor, gen: c.Gen}
+	d := &Delivery{Raw: it.raw, Tag: it.tag, Dup: it.dup, Corrupted: it.cor, gen: it.gen}
 	var dg model.Datagram
 	if err := json.Unmarshal(it.raw, &dg); err == nil {
 		d.D = &dg.Datagram
 	}
 	c.Del = append(c.Del, d)
+	d.Pre = w.Stamp()
 	if c.BeforeDeliver != nil {
 		c.BeforeDeliver(d)
 	}
@@ -171,7 +179,10 @@ func (c *Conn) deliver(it qitem) {
 		t.OpSeq = d.Begin
 	}
 	c.Handling = true
-	rd := c.Reader
+	rd := it.rd
+	if rd == nil {
+		rd = c.Reader
+	}
 	rd.HandleShipPayloadMessage(it.raw)
 	c.Handling = false
 	d.End = w.Logf("handled %s %s", c.Name, it.tag)
@@ -179,6 +190,7 @@ func (c *Conn) deliver(it qitem) {
 	if c.AfterDeliver != nil {
 		c.AfterDeliver(d)
 	}
+	d.Post = w.Stamp()
 }
 
 // Node is a real spine.DeviceLocal.
@@ -265,7 +277,10 @@ func (n *Node) Connect(peerName string, onWrite func(s *Sent), bind func(c *Conn
 		bind(c)
 	}
 	n.W.Logf("connect %s gen=%d", c.Name, c.Gen)
+	// ship-go cannot deliver anything before SetupRemoteDevice has returned the reader
+	c.Paused = true
 	c.Reader = n.Dev.SetupRemoteDevice(ski, &connWriter{c: c, gen: c.Gen})
+	c.Paused = false
 	return c
 }
 
